@@ -17,6 +17,14 @@ CLAIMED = {
                      ' Open known findings F9, F10 (see known_findings.json): their input classes are excluded from generation while open.', ref='8 (C04)', technique='Coq proof of the key soundness lemma + extracted THT_f stable-model oracle'),
     'C05': dict(text='Proof (Coq): C05_diamond / C05_dia_formula / C05_box_formula: the executable continuation-style evaluator whose cases are those of DiamondFormula/BoxFormula.translate_* equals the relational LDLf semantics for ALL paths; runs stay inside the trace.' + S4 +
                      ' (witness atoms vs extracted LDL.dsat, normal-form paths). Partial: the translation into Boolean/next formulas inside the theory is tied by the correspondence, not by a refinement proof.', ref='8 (C05)', technique='Coq proof of LDLf evaluator = relational semantics + extracted oracle on every state'),
+    'C07': dict(text='Proof (Coq): C07_parse_flat + C07_parse_respects - for EVERY table the operator-precedence parser (frame model of TheoryParser.parse / gringo) returns a tree with the input as frontier that respects priorities and associativities (spine-based table conformance, i.e. the fully parenthesised reading); C07_tables_agree (vm_compute over finite tables: a proof) - the three regenerated copies of the table equal the documented one; C07_reduce_test ties the regenerated reduction test of the Python parser to the model. Tie: TheoryParser and gringo (under the #theory texts telingo emits) against the extracted parser with the DOCUMENTED table on all operator pairs and triples; raw vs parenthesised programs through the pipeline.',
+                ref='8 (C07)', technique='Coq proof of parser soundness for arbitrary tables + finite table equality + exhaustive pair/triple differential parsing'),
+    'C10': dict(text='Proof (Coq): C10_total_and_states, C10_state_contents - print_model (guards regenerated from TelApp.print_model) never aborts, prints exactly states 0..h, and an atom appears under State k iff it is a shown, non-auxiliary function symbol with last argument k. Tie: regeneration + subprocess runs of the command line (files, two files, stdin) comparing the text output with the --outf=2 witnesses grouped by the extracted model. Partial: ordering of the model callback before print_model and threads are runtime behaviour of clingo, observed only through the subprocess.',
+                ref='8 (C10)', technique='Coq proof over regenerated print guards + CLI text vs JSON witness correspondence'),
+    'C11': dict(text='Proof (Coq): C11_atoms - for every statement shape, place, number of leading/trailing primes and the initially marker, the acceptance decision (flags, prime arithmetic and guards REGENERATED from program.py/transformer.py/term.py) equals the table [allowed] written from the property text, and never raises; C11_primes, C11_rewrite, C11_theory_context. Tie: regeneration + EXHAUSTIVE table of 34 syntactic positions x 25 atom forms x parts through transformers.transform (class, rewritten atom, look-ahead part, location) + theory-atom placements. The traversal model (which flags a position sees) is hand-written and tied by that table.',
+                ref='8 (C11)', technique='Coq proof over regenerated context decisions + exhaustive position x form correspondence'),
+    'C15': dict(text='Proof (partial, Coq): the regenerated decision fragments never take the raising branch (C15_loop_never_raises, C15_atom_decision_total, C15_theory_context_total). The bulk of the property is decided by the fuzz correspondence: a grammar of valid and near-valid inputs through transform+imain under a watchdog (exception type is the oracle) and command-line runs (exit status, message, option values). That the grammar reaches every internal failure is not a theorem.',
+                ref='8 (C15)', technique='Coq totality of regenerated decisions + grammar-based fuzzing with exception-type oracle'),
     'C08': dict(text='Proof (Coq): the loop condition, part selection, assumption filter, call order and option defaults are REGENERATED from telingo/__init__.py on every run; C08_trace/horizons/at_most_imax/at_least_min/stop_reason/no_early_stop/default_shortest hold for every option triple, result sequence, part list and atom base. Tie: regeneration + exhaustive differential run of telingo.imain on a scripted fake Control against the extracted model.',
                 ref='8 (C08)', technique='Coq proof over regenerated loop decisions + exhaustive model/implementation call-trace correspondence'),
     'C09': dict(text='Proof (Coq) for the ground core fragment: C09_time_in_range, C09_initial_marker, C09_final_marker follow from the characterisation of the stable models of the incremental run; C09_future_atoms_determined from the auxiliary-atom elimination. For arbitrary (non-ground, theory) programs and the shipped examples the four facts are checked on ALL atoms of the real answer sets (the theorem statement is the oracle).',
